@@ -26,6 +26,7 @@ class EngineError(Exception):
 
 
 SOLVER_TIMEOUT_MS = 10000
+FEASIBILITY_TIMEOUT_MS = 2500
 
 
 class Check:
@@ -161,8 +162,18 @@ class Ctx:
             self.pc.append(f)
             self.solver.add(f)
             return side
-        can_t = self._check(cond)
-        can_f = self._check(z3.Not(cond))
+        # feasibility of the two sides (short budget; `unknown` counts as feasible, which is sound: an infeasible path
+        # can only add obligations whose hypotheses are contradictory).  If one side is refuted the other one holds on
+        # this (feasible) path and is not checked.
+        self.solver.set("timeout", FEASIBILITY_TIMEOUT_MS)
+        try:
+            can_f = self._check(z3.Not(cond))
+            if can_f == z3.unsat:
+                can_t = z3.sat
+            else:
+                can_t = self._check(cond)
+        finally:
+            self.solver.set("timeout", self.timeout_ms)
         t_ok = can_t != z3.unsat
         f_ok = can_f != z3.unsat
         if not t_ok and not f_ok:
